@@ -145,6 +145,12 @@ def make(targets, timeout=1800):
         p = subprocess.run(
             ["timeout", str(timeout), "make", "-j%d" % NPROC] + list(targets),
             cwd=COQ, stdout=subprocess.PIPE, stderr=subprocess.STDOUT, text=True)
+        if p.returncode != 0 and ("out of memory" in p.stdout or "Killed" in p.stdout or "Error 134" in p.stdout
+                                  or "Error 137" in p.stdout):
+            # many coqc at once ran out of memory (from-scratch build): once more, nearly serially
+            p = subprocess.run(
+                ["timeout", str(timeout), "make", "-j2"] + list(targets),
+                cwd=COQ, stdout=subprocess.PIPE, stderr=subprocess.STDOUT, text=True)
         return p.returncode == 0, p.stdout
     finally:
         lock.close()
